@@ -828,11 +828,15 @@ func ToKebab(s string) string {
 		case unicode.IsLower(r) || unicode.IsDigit(r):
 			b.WriteRune(r)
 			noDash = true
-		case unicode.IsUpper(r):
+		case unicode.IsUpper(r) || unicode.IsTitle(r):
 			if noDash && (unicode.IsLower(runes[i-1]) || i+1 < n && unicode.IsLower(runes[i+1])) {
 				b.WriteByte('-')
 			}
 			b.WriteRune(unicode.ToLower(r))
+			noDash = true
+		case unicode.IsLetter(r):
+			// r is a letter without case.
+			b.WriteRune(r)
 			noDash = true
 		default:
 			if noDash && i+1 < n {
